@@ -417,8 +417,9 @@ def find_sinks(project, modname) -> list:
             return seen_
         for b in ps:
             alloc = any(isinstance(n, ast.Call) and isinstance(n.func, ast.Attribute) and n.func.attr in ("zeros", "empty", "full", "ones")
-                        and n.args and any(isinstance(x, ast.BinOp) and isinstance(x.op, ast.Add) and isinstance(x.left, ast.Name)
-                                           and x.left.id == b for x in ast.walk(n.args[0])) for n in ast.walk(fi.node))
+                        and n.args and any(isinstance(x, ast.BinOp) and isinstance(x.op, ast.Add) and any(
+                            isinstance(o_, ast.Name) and o_.id == b for o_ in (x.left, x.right)) for x in ast.walk(n.args[0]))
+                        for n in ast.walk(fi.node))
             subs = [n for n in ast.walk(fi.node) if isinstance(n, ast.BinOp) and isinstance(n.op, ast.Sub)
                     and isinstance(n.left, ast.Name) and n.left.id == b]
             if not (alloc and subs):
